@@ -94,3 +94,15 @@ func (s *Set) Len() int {
 	defer s.mu.Unlock()
 	return len(s.m)
 }
+
+// Catch runs f and converts a panic of the code under test into an observation.
+func Catch(f func()) (panicked bool, msg string) {
+	defer func() {
+		if e := recover(); e != nil {
+			panicked = true
+			msg = fmtPanic(e)
+		}
+	}()
+	f()
+	return
+}
